@@ -189,6 +189,7 @@ func (d *Dir) Check() error {
 
 		if !valid {
 			wl.Printf("ignoring file for invalid username: '%s'", user)
+			continue
 		}
 
 		if isAdmin {
@@ -210,10 +211,19 @@ func (d *Dir) Check() error {
 	return result
 }
 
-// AddUser adds user to the store. It is an error if the user already exists.
-func (d *Dir) AddUser(user, password string, isAdmin bool) (err error) {
+// checkUserName tests whether user is a valid username according to the schema.
+// Since usernames are used to build file names this must be checked by all entry points.
+func checkUserName(user string) error {
 	if !userNameRe.MatchString(user) {
 		return fmt.Errorf("username '%s' is invalid", user)
+	}
+	return nil
+}
+
+// AddUser adds user to the store. It is an error if the user already exists.
+func (d *Dir) AddUser(user, password string, isAdmin bool) (err error) {
+	if err = checkUserName(user); err != nil {
+		return
 	}
 	return NewUserHash(d, user).Add(password, isAdmin)
 }
@@ -221,17 +231,26 @@ func (d *Dir) AddUser(user, password string, isAdmin bool) (err error) {
 // UpdateUser changes the password of user. It is an error if the user does
 // not exist.
 func (d *Dir) UpdateUser(user, password string) (err error) {
+	if err = checkUserName(user); err != nil {
+		return
+	}
 	return NewUserHash(d, user).Update(password)
 }
 
 // SetAdmin changes the admin status of user. It is an error if the user does
 // not exist.
 func (d *Dir) SetAdmin(user string, adminState bool) (err error) {
+	if err = checkUserName(user); err != nil {
+		return
+	}
 	return NewUserHash(d, user).SetAdmin(adminState)
 }
 
 // RemoveUser removes user from the store.
 func (d *Dir) RemoveUser(user string) {
+	if checkUserName(user) != nil {
+		return
+	}
 	NewUserHash(d, user).Remove()
 }
 
@@ -357,11 +376,17 @@ func (d *Dir) ListFull() (UserListFull, error) {
 
 // Exists checks if user exists. It also returns whether user is an admin.
 func (d *Dir) Exists(user string) (exists bool, isAdmin bool, err error) {
+	if err = checkUserName(user); err != nil {
+		return
+	}
 	return NewUserHash(d, user).Exists()
 }
 
 // Authenticate checks if user and password are a valid combination. It also returns
 // whether user is an admin, the password is upgradeable and when the password was last changed.
 func (d *Dir) Authenticate(user, password string) (isAuthenticated, isAdmin, upgradeable bool, lastchange time.Time, err error) {
+	if err = checkUserName(user); err != nil {
+		return false, false, false, time.Unix(0, 0), err
+	}
 	return NewUserHash(d, user).Authenticate(password)
 }
